@@ -65,6 +65,16 @@ template<class T> static void run(Rng& g, int n) {
 		    M4 C2 = mul(mul(mul(T2, R2), K2), S2); LD d = 0; for (int c = 0; c < 4; ++c) for (int r = 0; r < 4; ++r) d = std::max(d, fabsl(C2.a[c][r] - (LD)Mx[c][r])); LD td = 4096 * eps * (1 + nrm(C));
 		    if (!(d <= td)) fail("decompose" + ty, (kyz != 0 ? "skew-yz" : kxy != 0 || kxz != 0 ? "skew" : "trs"), "T*R*K*S scale=(" + str((double)sc.x) + "," + str((double)sc.y) + "," + str((double)sc.z) + ") skew(xy,xz,yz)=(" + str((double)kxy) + "," + str((double)kxz) + "," + str((double)kyz) + ")", "components rebuild the matrix", "max abs diff " + str((double)d) + " skew out=(" + str((double)dK.x) + "," + str((double)dK.y) + "," + str((double)dK.z) + ")"); }
 		}
+		// decompose with a perspective partition: M = P*T*R*S, bottom row (px, py, pz, 1) with any subset of the three entries zero
+		{ glm::vec<3, T> sc((T)g.real(0.5, 2), (T)g.real(0.5, 2), (T)g.real(0.5, 2)), tr((T)g.real(-2, 2), (T)g.real(-2, 2), (T)g.real(-2, 2)); int mask = it % 8; LD pp[3]; for (int k = 0; k < 3; ++k) pp[k] = (mask >> k) & 1 ? g.real(0.05, 0.3) * (g.range(0, 1) ? 1 : -1) : 0;
+		  M4 S = ident(); S.a[0][0] = sc.x; S.a[1][1] = sc.y; S.a[2][2] = sc.z; M4 R = (it % 3 == 0) ? ident() : rodr(ang, axis.x, axis.y, axis.z); M4 Tm = ident(); Tm.a[3][0] = tr.x; Tm.a[3][1] = tr.y; Tm.a[3][2] = tr.z; M4 P = ident(); P.a[0][3] = pp[0]; P.a[1][3] = pp[1]; P.a[2][3] = pp[2];
+		  M4 C = mul(mul(mul(P, Tm), R), S); glm::mat<4, 4, T> Mx; for (int c = 0; c < 4; ++c) for (int r = 0; r < 4; ++r) Mx[c][r] = (T)C.a[c][r];
+		  glm::vec<3, T> dS, dT, dK; glm::qua<T> dQ; glm::vec<4, T> dP; count("decompose_perspective" + ty); bool okd = glm::decompose(Mx, dS, dQ, dT, dK, dP);
+		  if (okd) { M4 K2 = ident(); K2.a[1][0] = dK.z; K2.a[2][0] = dK.y; K2.a[2][1] = dK.x; M4 S2 = ident(); S2.a[0][0] = dS.x; S2.a[1][1] = dS.y; S2.a[2][2] = dS.z; M4 R2 = toL(glm::mat4_cast(dQ)); M4 T2 = ident(); T2.a[3][0] = dT.x; T2.a[3][1] = dT.y; T2.a[3][2] = dT.z;
+		    M4 P2 = ident(); P2.a[0][3] = dP.x; P2.a[1][3] = dP.y; P2.a[2][3] = dP.z; P2.a[3][3] = dP.w; M4 C2 = mul(mul(mul(mul(P2, T2), R2), K2), S2); LD wn = C.a[3][3]; LD d = 0; for (int c = 0; c < 4; ++c) for (int r = 0; r < 4; ++r) d = std::max(d, fabsl(C2.a[c][r] - C.a[c][r] / wn));
+		    LD d2 = 0; if constexpr (std::is_same<T, float>::value) { auto Rm = glm::recompose(dS, dQ, dT, dK, dP); for (int c = 0; c < 4; ++c) for (int r = 0; r < 4; ++r) d2 = std::max(d2, fabsl((LD)Rm[c][r] - C.a[c][r] / wn)); }   /* recompose only instantiates for float */
+		    LD td = 16384 * eps * (1 + nrm(C)); if (!(d <= td) || !(d2 <= td)) fail("decompose_perspective" + ty, "bottom row mask " + str(mask), "P*T*R*S p=(" + str((double)pp[0]) + "," + str((double)pp[1]) + "," + str((double)pp[2]) + ")", "components (and recompose) rebuild the matrix normalised by m[3][3]", "max abs diff " + str((double)d) + " / recompose " + str((double)d2) + " perspective out=(" + str((double)dP.x) + "," + str((double)dP.y) + "," + str((double)dP.z) + "," + str((double)dP.w) + ")"); }
+		  else fail("decompose_perspective" + ty, "returned-false", "mask " + str(mask), "true", "false"); }
 		if (it < 2) sample("C09 " + ms(M));
 	}
 }
